@@ -63,15 +63,13 @@ def bind(prog, run):
         if m is None:
             raise AnalysisError(f"anchor lost: {cq}.{mname}")
         f = rel(prog.mods[m.mod].path)
-        cs = [c for c, r in prog.calls_in(m) if isinstance(r, FuncInfo) and r.qual == f"{PLOT_MOD}.{callee}"]
-        if not cs:
+        res = astq.handover(prog, m, f"{PLOT_MOD}.{callee}", {p: {s_} for p, s_ in want.items()}, depth=2)
+        if not res:
             run.ob("R-bind", m.qual, f"call of {callee}", False, f"{mname} does not call {callee}", witness="missing", file=f)
             continue
-        b, errs = astq.bind_args(prog.functions[f"{PLOT_MOD}.{callee}"].node, cs[0])
-        for p, src_want in want.items():
-            a = b.get(p)
-            got = astq.src(astq.expr_at(m, cs[0], a)) if a is not None else None
-            run.ob("R-bind", m.qual, f"{callee}.{p} <- {src_want}", got == src_want, f"`{got}`", witness=str(got), file=f, node=cs[0])
+        for c, p, ok, detail in res:
+            got = detail.split("`")[3] if detail.count("`") >= 4 else ("default" if "not passed" in detail else detail[:60])
+            run.ob("R-bind", m.qual, f"{callee}.{p} <- {want[p]}", ok, detail, witness=str(got), file=f, node=c)
 
 
 DRAW = ("plot", "scatter", "errorbar")
@@ -172,6 +170,8 @@ def order_axis_form(prog, fi, e):
     if not (isinstance(cur, ast.BinOp) and isinstance(cur.op, (ast.FloorDiv, ast.Mod))):
         return None
     left = cur.left
+    while isinstance(left, ast.Call) and astq.callee_name(prog, fi, left) in ("numpy.array", "numpy.asarray") and len(left.args) == 1:
+        left = left.args[0]         # np.array(range(n)) is the ramp itself
     is_idx = (idx is not None and isinstance(left, ast.Name) and left.id == idx) or \
         (isinstance(left, ast.Call) and astq.callee_name(prog, fi, left) in ("numpy.arange", "range"))
     if not is_idx:
@@ -236,18 +236,30 @@ def markers(prog, run, fi):
     pos, _, _, _ = astq.params_of(fi.node)
     lab = [p_ for p_ in pos if p_.lower().startswith("lab")]
     wh = []
-    for c in ast.walk(fi.node):
-        if isinstance(c, ast.Call) and astq.callee_name(prog, fi, c) == "numpy.where" and len(c.args) == 3:
-            cond = astq.expr_at(fi, c, c.args[0])
+    seen_w = set()
+    cands = [(c, c) for c in ast.walk(fi.node) if isinstance(c, ast.Call)]
+    # selections made inside a helper show up in the expansion of the drawn coordinates
+    for dc, x, y in draw_calls(fi):
+        for e in (x, y):
+            ex = astq.expr_at(fi, dc, e)
+            cands += [(c, dc) for c in ast.walk(ex) if isinstance(c, ast.Call)]
+    for c, at in cands:
+        if astq.callee_name(prog, fi, c) == "numpy.where" and len(c.args) == 3:
+            cond = astq.expr_at(fi, at, c.args[0]) if at is c else c.args[0]
             if isinstance(cond, ast.Compare) and isinstance(cond.left, ast.Name) and cond.left.id in lab:
-                wh.append((c, cond))
+                a1_, a2_ = (astq.expr_at(fi, at, c.args[1]), astq.expr_at(fi, at, c.args[2])) if at is c else (c.args[1], c.args[2])
+                key = (astq.dump(cond), astq.dump(a1_), astq.dump(a2_))
+                if key in seen_w:
+                    continue
+                seen_w.add(key)
+                wh.append((c, cond, a1_, a2_, at))
     if not wh:
         run.ob("R-markers", fi.qual, "label selections", None, "no np.where(Lab == k, X, nan) selection found", file=f)
         return
     sel = {}
-    for c, cmp_ in wh:
+    for c, cmp_, a1, a2, at_ in wh:
         k = cmp_.comparators[0].value if isinstance(cmp_.comparators[0], ast.Constant) else None
-        a1, a2 = astq.expr_at(fi, c, c.args[1]), astq.expr_at(fi, c, c.args[2])
+        c = at_
         isnan = isinstance(a2, ast.Attribute) and a2.attr.lower() == "nan"
         tbl = a1.id if isinstance(a1, ast.Name) else astq.src(a1)
         okform = isinstance(cmp_.ops[0], ast.Eq) and k in (0, 1) and isnan and tbl in pos
